@@ -383,6 +383,65 @@ def run(prog, pid, clauses):
                         if kind == "M" and k[0] in shared and k[0] not in init_written:
                             bad.append("%s.%s (class-level mutable defined at %s:%d) mutated through an instance at %s" % (
                                 cname, k[0], mod, shared[k[0]], v2.where(fref, n)))
+        # ... and through the class itself: ClassName.attr[...] = v, ClassName.attr.update(...), ClassName.attr = v,
+        # cls.attr / type(self).attr likewise (a per-class cache shared by every instance)
+        class_attrs = {}
+        for mod, classes in prog.classes.items():
+            if not mod.startswith(PKG):
+                continue
+            for cname, c in classes.items():
+                for st in c.node.body:
+                    if isinstance(st, ast.Assign):
+                        for t in st.targets:
+                            if isinstance(t, ast.Name):
+                                class_attrs.setdefault(cname, set()).add(t.id)
+                    elif isinstance(st, ast.AnnAssign) and isinstance(st.target, ast.Name) and st.value is not None:
+                        class_attrs.setdefault(cname, set()).add(st.target.id)
+
+        def class_rooted(n):
+            """(class name or 'cls'/'type(self)', attr) if n is ClassName.attr / cls.attr / type(self).attr"""
+            if not isinstance(n, ast.Attribute):
+                return None
+            v = n.value
+            if isinstance(v, ast.Name) and (v.id in class_attrs or v.id == "cls"):
+                return (v.id, n.attr)
+            if isinstance(v, ast.Call) and isinstance(v.func, ast.Name) and v.func.id == "type":
+                return ("type(self)", n.attr)
+            if isinstance(v, ast.Attribute) and v.attr == "__class__":
+                return ("__class__", n.attr)
+            return None
+        # class decorators run once, at import time, before any parser exists: not on the construct / run path
+        decorators = set()
+        for mod, tree in prog.trees.items():
+            if mod.startswith(PKG):
+                for cd in ast.walk(tree):
+                    if isinstance(cd, ast.ClassDef):
+                        for d in cd.decorator_list:
+                            f = d.func if isinstance(d, ast.Call) else d
+                            if isinstance(f, ast.Name):
+                                decorators.add(f.id)
+        for mod, tree in prog.trees.items():
+            if not mod.startswith(PKG):
+                continue
+            skip = set()
+            for fn in ast.walk(tree):
+                if isinstance(fn, ast.FunctionDef) and fn.name in decorators:
+                    skip.update(id(x) for x in ast.walk(fn))
+            for fn in ast.walk(tree):
+                if not isinstance(fn, (ast.FunctionDef, ast.AsyncFunctionDef)) or id(fn) in skip:
+                    continue
+                for n in ast.walk(fn):
+                    hit = None
+                    if isinstance(n, ast.Subscript) and isinstance(n.ctx, (ast.Store, ast.Del)):
+                        hit = class_rooted(n.value)
+                    elif isinstance(n, ast.Attribute) and isinstance(n.ctx, (ast.Store, ast.Del)):
+                        hit = class_rooted(n)
+                    elif isinstance(n, ast.Call) and isinstance(n.func, ast.Attribute) and n.func.attr in MUT:
+                        hit = class_rooted(n.func.value)
+                    elif isinstance(n, ast.AugAssign):
+                        hit = class_rooted(n.target) or (class_rooted(n.target.value) if isinstance(n.target, ast.Subscript) else None)
+                    if hit and (hit[0] not in class_attrs or hit[1] in class_attrs[hit[0]]):
+                        bad.append("%s.%s (class-level state) written through the class in %s.%s line %d" % (hit[0], hit[1], mod, fn.name, n.lineno))
         out.append(ob("class-level-mutable-state", not bad, dict(offenders=sorted(set(bad))), funcs, pid))
 
     if "global-purity" in clauses:
@@ -514,17 +573,55 @@ def run(prog, pid, clauses):
         out.append(ob("lexer-flags-written-are-reset-per-statement", not missing and bool(reset),
                       dict(reset=sorted(reset), written=sorted(written), not_reset={k: w for k, w in missing.items()}),
                       {view.methods["set_default_flags_in_lexer"].key}, pid))
-        # and the reset is executed before every statement parse
-        pl = view.methods["process_line"]
-        order_ok = False
-        calls = [(n.lineno, attr_path(n.func)[1]) for n in ast.walk(pl.node) if isinstance(n, ast.Call) and attr_path(n.func) and attr_path(n.func)[0] == "self" and len(attr_path(n.func)) == 2]
-        names = [c for _, c in sorted(calls)]
-        if "set_default_flags_in_lexer" in names and "process_statement" in names:
-            order_ok = names.index("set_default_flags_in_lexer") < names.index("process_statement")
-        # parse_statement only reachable from process_statement
-        callers = [m for m, fref in view.methods.items() if any(kind == "C" and k == "parse_statement" for kind, k, n in events_of(view, fref.node))]
-        out.append(ob("reset-precedes-every-statement-parse", order_ok and callers == ["process_statement"],
-                      dict(process_line_calls=names, parse_statement_callers=callers), {pl.key}, pid))
+        # and the reset is executed before every statement parse: at every call site of parse_statement (or of a
+        # function that only forwards to it) a call of set_default_flags_in_lexer precedes it in the same block
+        def calls_in(block):
+            """[(index in block, callee)] for the self.<m>() calls of each statement of a block (nested blocks excluded)"""
+            res = []
+            for i, st in enumerate(block):
+                for n in ast.walk(st) if not isinstance(st, (ast.If, ast.For, ast.While, ast.Try, ast.With)) else ast.walk(getattr(st, "test", None) or getattr(st, "iter", None) or ast.Pass()):
+                    if isinstance(n, ast.Call) and attr_path(n.func) and attr_path(n.func)[0] == "self" and len(attr_path(n.func)) == 2:
+                        res.append((i, attr_path(n.func)[1]))
+            return res
+
+        def blocks_of(fn_node):
+            out_blocks = [fn_node.body]
+            for n in ast.walk(fn_node):
+                for fld in ("body", "orelse", "finalbody"):
+                    b = getattr(n, fld, None)
+                    if isinstance(b, list) and b and n is not fn_node:
+                        out_blocks.append(b)
+                if isinstance(n, ast.Try):
+                    for h in n.handlers:
+                        out_blocks.append(h.body)
+            return out_blocks
+        problems = []
+        sites = {}
+        targets = ["parse_statement"]
+        seen_t = set()
+        while targets:
+            tgt = targets.pop()
+            if tgt in seen_t:
+                continue
+            seen_t.add(tgt)
+            for m, fref in view.methods.items():
+                for block in blocks_of(fref.node):
+                    cs = calls_in(block)
+                    for i, callee in cs:
+                        if callee != tgt:
+                            continue
+                        guarded = any(j <= i and c == "set_default_flags_in_lexer" for j, c in cs)
+                        sites.setdefault(tgt, []).append("%s%s" % (m, "" if guarded else " (no reset before)"))
+                        if not guarded:
+                            # the caller may itself be called only after a reset: follow it one level up
+                            if m == "process_statement" or m.startswith("process_") and m != "process_line":
+                                targets.append(m)
+                            else:
+                                problems.append("%s calls %s without resetting the lexer flags first" % (m, tgt))
+        if "parse_statement" not in sites:
+            problems.append("no call site of parse_statement found")
+        out.append(ob("reset-precedes-every-statement-parse", not problems, dict(call_sites=sites, offenders=problems),
+                      {view.methods[m].key for m in ("process_line", "parse_data") if m in view.methods}, pid))
 
     if "tables-append-only" in clauses:
         bad = []
